@@ -179,6 +179,7 @@ func RunSchedule(t int, sc *Schedule, out *ndj.Writer, workdir string, grace tim
 		return false, err
 	}
 	swap.VerifSetTiming(true, 50*time.Millisecond, time.Millisecond, time.Hour)
+	swap.VerifSetTiming(true, time.Hour, time.Millisecond, time.Hour) // a goroutine parked inside the pay loop must not run into its deadline
 	ctl.byGoid[ctl.self] = &Proc{Name: "drv"}
 	s, err := w.Prepare(sc.Role, chain, sc.Stage)
 	if err != nil {
@@ -260,7 +261,7 @@ func RunSchedule(t int, sc *Schedule, out *ndj.Writer, workdir string, grace tim
 		time.Sleep(grace)
 		_, gs2 := ctl.Settle(30 * time.Second)
 		bl2 := ctl.stuck(gs2)
-		if sigOf(bl) != sigOf(bl2) {
+		if allOf(bl) != allOf(bl2) {
 			ctl.Emit("end", Ev{"unsettled": true, "state": w.State(s.ID), "note": "blocked set changed during grace period"})
 			return true, nil
 		}
@@ -305,10 +306,72 @@ func (c *Ctl) stuck(gs []G) []Blocked {
 	return out
 }
 
+// holders: functions of the real code that keep a lock while calling out. A
+// blocked goroutine with such a frame below its wait site is part of the
+// deadlock itself; the others merely queue behind it.
+var holders = []string{").SendEvent", ").HandleCsvTx", "liquidBlockHeaderSubscriber).Update", ").AddWaitForConfirmationTx"}
+
+func (b *Blocked) holds() bool {
+	for i, f := range b.Frames {
+		if i == 0 {
+			continue
+		}
+		for _, h := range holders {
+			if strings.HasSuffix(f, h) {
+				return true
+			}
+		}
+	}
+	return false
+}
+
+// sigOf: the deadlock's signature = entry point and wait site of the goroutines
+// that hold a lock while waiting (all blocked ones if none is recognised).
+var entryAlias = map[string]string{"blk": "notify", "disp": "notify", "blk_obs": "notify_obs"}
+
+func (b *Blocked) name() string {
+	if a, ok := entryAlias[b.Entry]; ok {
+		return a
+	}
+	return b.Entry
+}
+
+// selfCycle: the goroutine waits for the swap mutex inside SendEvent while an
+// outer SendEvent of the same goroutine holds it.
+func (b *Blocked) selfCycle() bool {
+	if len(b.Frames) == 0 || !strings.HasSuffix(b.Frames[0], ").SendEvent") {
+		return false
+	}
+	inAction := false // the outer SendEvent holds the mutex only while it runs an action
+	for _, f := range b.Frames[1:] {
+		if strings.HasSuffix(f, ".Execute") {
+			inAction = true
+		}
+		if strings.HasSuffix(f, ").SendEvent") {
+			return inAction
+		}
+	}
+	return false
+}
+
 func sigOf(bl []Blocked) string {
 	var parts []string
 	for _, b := range bl {
-		parts = append(parts, b.Entry+":"+b.At)
+		if b.selfCycle() {
+			parts = append(parts, b.name()+":"+b.At)
+		}
+	}
+	if len(parts) == 0 {
+		for _, b := range bl {
+			if b.holds() {
+				parts = append(parts, b.name()+":"+b.At)
+			}
+		}
+	}
+	if len(parts) == 0 {
+		for _, b := range bl {
+			parts = append(parts, b.name()+":"+b.At)
+		}
 	}
 	sort.Strings(parts)
 	return strings.Join(parts, "+")
@@ -433,7 +496,7 @@ func RunStress(t int, sc *StressCase, out *ndj.Writer, workdir string, watchdog,
 			time.Sleep(grace)
 			_, gs2 := ctl.Settle(5 * time.Second)
 			bl2 := ctl.stuck(gs2)
-			if len(bl) > 0 && sigOf(bl) == sigOf(bl2) {
+			if len(bl) > 0 && allOf(bl) == allOf(bl2) {
 				ctl.Emit("deadlock", Ev{"blocked": bl, "state": w.State(s.ID), "grace_ms": grace.Milliseconds(), "sig": sigOf(bl)})
 				ctl.Emit("end", Ev{"unsettled": false, "unreturned": len(bl)})
 			} else {
@@ -546,4 +609,13 @@ func (c *Ctl) statusAll(gs []G) map[string]string {
 		}
 	}
 	return out
+}
+
+func allOf(bl []Blocked) string {
+	var parts []string
+	for _, b := range bl {
+		parts = append(parts, b.P+":"+b.At)
+	}
+	sort.Strings(parts)
+	return strings.Join(parts, "+")
 }
